@@ -7,6 +7,11 @@ CHECKS = {
         text="Every binary operation and integer power on exact numbers is compared with an independent exact model and with the unique normalised representation; small universe exhaustively, multi-limb values randomly. Exploration: absence of counterexamples in the explored space, not a proof.",
         note="Trusts Python fractions, the driver's raw dump (public accessors only) and the ASan/UBSan runtime to surface memory errors/UB.",
         variants=["main"]),
+    "C07": dict(
+        engine="hy", technique="property-based testing: Hypothesis recursive arithmetic recipes + all ordered number-kind pairs; metamorphic value oracle (mpmath at two precisions) comparing the returned tree with the recipe at generated complex points",
+        text="Every generated arithmetic recipe is evaluated independently with mpmath (principal branches) at three generic complex points and compared with the value of the tree the library returned; exact trees to 1e-25, float-containing trees to a forward-error-scaled double tolerance. Exploration only.",
+        note="Trusts mpmath, the raw dump, and the stated domain guards (non-literal bases on the negative axis, |value| outside 1e+-300 (1e+-100 with floats) are skipped and counted).",
+        variants=["main"]),
 }
 
 NOT_APPLICABLE = {}
